@@ -62,6 +62,41 @@ type ClientConn struct {
 // IntdashExtensionFieldsは、intdash API用の拡張フィールドです。
 type IntdashExtensionFields message.IntdashExtensionFields
 
+// disconnectGate makes Disconnect the last message of a connection: once it has been written, every
+// later write (keepalive Ping/Pong excepted) fails as on a closed transport.
+type disconnectGate struct {
+	mu           sync.RWMutex
+	disconnected bool
+}
+
+type gatedTransport struct {
+	EncodingTransport
+	gate *disconnectGate
+}
+
+func (t *gatedTransport) Write(m message.Message) error {
+	switch m.(type) {
+	case *message.Ping, *message.Pong:
+		return t.EncodingTransport.Write(m)
+	}
+	t.gate.mu.RLock()
+	defer t.gate.mu.RUnlock()
+	if t.gate.disconnected {
+		return transport.ErrAlreadyClosed
+	}
+	return t.EncodingTransport.Write(m)
+}
+
+func (t *gatedTransport) writeDisconnect(m *message.Disconnect) error {
+	t.gate.mu.Lock()
+	defer t.gate.mu.Unlock()
+	if err := t.EncodingTransport.Write(m); err != nil {
+		return err
+	}
+	t.gate.disconnected = true
+	return nil
+}
+
 type clientUpstreams struct {
 	mu             *sync.RWMutex
 	acks           map[uint32]chan *message.UpstreamChunkAck
@@ -131,9 +166,14 @@ func Connect(c *ClientConnConfig) (*ClientConn, error) {
 	}
 
 	ctx, cancel := context.WithCancel(context.Background())
+	gate := &disconnectGate{}
+	var unreliableTransport EncodingTransport
+	if c.UnreliableTransport != nil {
+		unreliableTransport = &gatedTransport{EncodingTransport: c.UnreliableTransport, gate: gate}
+	}
 	conn := &ClientConn{
-		transport:                       c.Transport,
-		unreliableTransport:             c.UnreliableTransport,
+		transport:                       &gatedTransport{EncodingTransport: c.Transport, gate: gate},
+		unreliableTransport:             unreliableTransport,
 		idGenerator:                     newRequestIDGeneratorForClient(),
 		ctx:                             ctx,
 		cancel:                          cancel,
@@ -383,6 +423,9 @@ func (c *ClientConn) Close() error {
 
 // SendDisconnectは、Disconnectメッセージを送信します。
 func (c *ClientConn) SendDisconnect(ctx context.Context, msg *message.Disconnect) error {
+	if t, ok := c.transport.(*gatedTransport); ok {
+		return t.writeDisconnect(msg)
+	}
 	return c.transport.Write(msg)
 }
 
